@@ -591,6 +591,26 @@ def hyp_coverage(run, C, key, module, fn):
         run.cov[key + "_outside_samples"] = outside[:6]
 
 
+def hyp_coverage_types(run, C, key, module, fn):
+    """per declared type: how many (specification, type) pairs satisfy a per-type hypothesis"""
+    import coqterm as ct
+    obs = [o for o in C["obs"] if o["ast"]["outcome"] == "ok" and o["gen_default"]["outcome"] == "ok"]
+    shards = xv.shard(obs, 8)
+
+    def runit(sh_i):
+        si, sh = sh_i
+        body = ["From XdrProofs Require Import %s." % module, "Open Scope string_scope.",
+                "Eval vm_compute in (map (fun a => (N.of_nat (List.length (filter (%s a) (map fst (types a)))), "
+                "N.of_nat (List.length (types a)))) [%s])." % (fn, ";\n".join(ct.ast(o["ast"]) for o in sh))]
+        return xv.parse_pairs(xv.coq_eval("hypt_%s_%s_%d" % (key[:12], run.pid, si), "\n".join(body)))
+    try:
+        vals = [v for r in xv.par(runit, list(enumerate(shards))) for v in r]
+    except (TieBroken, IndexError) as e:
+        run.cov[key + "_evaluation_failed"] = str(e)[:300]
+        return
+    run.cov[key] = "%d of %d (specification, type) pairs" % (sum(a for a, _ in vals), sum(b for _, b in vals))
+
+
 def term_coverage(run, C):
     hyp_coverage(run, C, "specs_satisfying_termination_hypothesis_term_b", "Termination", "term_b")
 
@@ -602,7 +622,6 @@ def check_c01(run):
         return
     corpus_ties(run, C)
     sup_coverage(run, C)
-    hyp_coverage(run, C, "specs_satisfying_consumed_hypothesis_sup4_b_and_nof1_b", "Consumed", "fun a => andb (sup4_b a) (nof1_b a)")
     k3bad = set(C["k3"]["dis"])
     for n, c in enumerate(C["cases"]):
         if c["kind"] not in ("valid", "valid_ctx", "valid_big"):
@@ -632,6 +651,8 @@ def check_c02(run):
         return
     corpus_ties(run, C)
     sup_coverage(run, C)
+    hyp_coverage_types(run, C, "types_satisfying_consumed_hypothesis_sup4_b_and_nof1_from_b", "Consumed",
+                       "fun a n => andb (sup4_b a) (nof1_from_b a n)")
     k3bad = set(C["k3"]["dis"])
     for n, c in enumerate(C["cases"]):
         if c["kind"] not in ("valid", "valid_ctx", "valid_big"):
@@ -915,6 +936,7 @@ def check_c09(run):
     if C is None:
         return
     corpus_ties(run, C, need=("k2", "k3"))
+    hyp_coverage_types(run, C, "types_satisfying_linear_total_hypothesis_lin_from_b", "Linear", "lin_from_b")
     # linear bound with constants from the specification: every request is for data present
     maxsize = {}
     ntypes = {}
